@@ -321,6 +321,60 @@ func (vc *VC) applyContract(st *State, fr *Frame, c *Contract, calleeName string
 			}
 		}
 	}
+	// calls f: whatever the body of the function value passed as f can write (syntactic write set) may have changed
+	for _, pn := range c.Calls {
+		ne, ok := names[pn]
+		if !ok {
+			sfail("calls %s: no such parameter", pn)
+		}
+		fv, ok := ne.V.(FuncV)
+		if !ok {
+			continue
+		}
+		fn, ok := fv.Fn.(*ssa.Function)
+		if !ok || fn == nil {
+			vc.noteAbstracted("callback " + pn + " of " + calleeName + " is not a known function: its effects are not modelled")
+			continue
+		}
+		// stores into objects the callback allocates itself (e.g. the argument slice of a variadic call) touch fresh
+		// objects only; every other write may hit any object of that array
+		ws := map[string]bool{}     // may change anywhere
+		wsNew := map[string]bool{} // may change at fresh objects only
+		allocs := false
+		visiting := map[*ssa.Function]bool{fn: true}
+		for _, b := range fn.Blocks {
+			for _, in := range b.Instrs {
+				if stI, isStore := in.(*ssa.Store); isStore && rootedAtLocalAlloc(stI.Addr) {
+					vc.writesOf(st, fr, in, wsNew, &allocs, 1, visiting)
+					continue
+				}
+				switch in.(type) {
+				case *ssa.Alloc, *ssa.MakeSlice, *ssa.MakeMap, *ssa.MakeInterface, *ssa.MakeClosure, *ssa.Slice:
+					// initialisation of a new object
+					vc.writesOf(st, fr, in, wsNew, &allocs, 1, visiting)
+					continue
+				}
+				vc.writesOf(st, fr, in, ws, &allocs, 1, visiting)
+			}
+		}
+		for a := range wsNew {
+			if _, known := vc.arrSorts[a]; !known || ws[a] {
+				continue
+			}
+			if pols[a] == nil {
+				pols[a] = &modPolicy{at: []Expr{}}
+			}
+		}
+		for a := range ws {
+			if _, known := vc.arrSorts[a]; !known {
+				continue
+			}
+			if pols[a] == nil {
+				pols[a] = &modPolicy{}
+			}
+			pols[a].unrestricted = true
+		}
+	}
 	var arrs []string
 	for a := range pols {
 		arrs = append(arrs, a)
@@ -565,4 +619,20 @@ func (vc *VC) appendOp(st *State, fr *Frame, call *ssa.CallCommon, args []Val, p
 		st.setArray(name, sort, sStore(a, nb, fresh))
 	}
 	return SliceV{Base: nb, Off: "0", Len: newLen}
+}
+
+// rootedAtLocalAlloc: the address is a field/element path into an object allocated by the same function
+func rootedAtLocalAlloc(v ssa.Value) bool {
+	for {
+		switch x := v.(type) {
+		case *ssa.FieldAddr:
+			v = x.X
+		case *ssa.IndexAddr:
+			v = x.X
+		case *ssa.Alloc:
+			return true
+		default:
+			return false
+		}
+	}
 }
